@@ -3,6 +3,7 @@
 #include <boost/msm/back/state_machine.hpp>
 #include <boost/msm/back11/state_machine.hpp>
 #include <boost/msm/backmp11/state_machine.hpp>
+#include "Backmp11Adapter.hpp"
 #include <boost/msm/front/state_machine_def.hpp>
 #include <boost/msm/front/functor_row.hpp>
 #include <boost/msm/front/history_policies.hpp>
@@ -15,26 +16,29 @@ namespace msm = boost::msm;
 namespace mpl = boost::mpl;
 namespace
 {
-struct h_go {}; struct h_resume {}; struct h_leave {}; struct h_step {}; struct h_jump {};
+struct h_go {}; struct h_resume {}; struct h_leave {}; struct h_step {}; struct h_jump {}; struct h_jump_g {}; struct h_jump_a {}; struct h_jump_ga {}; struct h_fork {};
 struct h_st : public msm::front::state<>
 {
     template <class Event, class FSM> void on_entry(Event const&, FSM&) {}
     template <class Event, class FSM> void on_exit(Event const&, FSM&) {}
 };
 struct h_act { template <class E, class F, class S, class T> void operator()(E const&, F&, S&, T&) {} };
+struct h_grd { template <class E, class F, class S, class T> bool operator()(E const&, F&, S&, T&) { return true; } };
 
 // ---- back / back11: history is a back-end policy (back11 takes the upper-fsm type first)
 template <class FE, class H = void> struct h_back { typedef boost::msm::back::state_machine<FE, H> type; };
 template <class FE> struct h_back<FE, void> { typedef boost::msm::back::state_machine<FE> type; };
 template <class FE, class H = void> struct h_back11 { typedef boost::msm::back11::state_machine<FE, void, H> type; };
 template <class FE> struct h_back11<FE, void> { typedef boost::msm::back11::state_machine<FE> type; };
+template <class FE, class H = void> struct h_mp11 { typedef boost::msm::backmp11::state_machine_adapter<FE> type; };   // history is a front-end typedef there
 template <template <class, class> class Back, class History>
 struct h_machines
 {
     struct Sub_ : public msm::front::state_machine_def<Sub_>
     {
-        struct A1 : h_st {}; struct A2 : h_st {};
+        struct A1 : h_st {}; struct A2 : h_st {}; struct A2x : h_st, msm::front::explicit_entry<0> {};
         struct B1 : h_st {}; struct B2 : h_st, msm::front::explicit_entry<1> {};
+        typedef mpl::vector<A2x> explicit_creation;
         typedef mpl::vector<A1, B1> initial_state;
         typedef int do_serialize;
         int data = 0;
@@ -58,6 +62,11 @@ struct h_machines
             msm::front::Row<Idle, h_go, Sub, msm::front::none, msm::front::none>,
             msm::front::Row<Idle, h_resume, Sub, msm::front::none, msm::front::none>,
             msm::front::Row<Idle, h_jump, typename Sub::template direct<typename Sub_::B2>, msm::front::none, msm::front::none>,
+            // explicit entry through every row kind (guard only, action only, both) and a fork
+            msm::front::Row<Idle, h_jump_g, typename Sub::template direct<typename Sub_::B2>, msm::front::none, h_grd>,
+            msm::front::Row<Idle, h_jump_a, typename Sub::template direct<typename Sub_::B2>, h_act, msm::front::none>,
+            msm::front::Row<Idle, h_jump_ga, typename Sub::template direct<typename Sub_::B2>, h_act, h_grd>,
+            msm::front::Row<Idle, h_fork, mpl::vector<typename Sub::template direct<typename Sub_::A2x>, typename Sub::template direct<typename Sub_::B2> >, msm::front::none, h_grd>,
             msm::front::Row<Sub, h_leave, Idle, h_act, msm::front::none>
         > {};
         template <class FSM, class Event> void no_transition(Event const&, FSM&, int) {}
@@ -71,6 +80,8 @@ void h_use()
     m.start();
     m.process_event(h_go()); m.process_event(h_step()); m.process_event(h_leave());
     m.process_event(h_resume()); m.process_event(h_leave()); m.process_event(h_jump());
+    m.process_event(h_leave()); m.process_event(h_jump_g()); m.process_event(h_leave()); m.process_event(h_jump_a());
+    m.process_event(h_leave()); m.process_event(h_jump_ga()); m.process_event(h_leave()); m.process_event(h_fork());
     const typename W::Top& cm = m;
     typename W::Top c(cm);
     c = cm;
@@ -86,6 +97,7 @@ void h_use()
     template void h_use<h_machines<h_back, HIST>>(); \
     template void h_use<h_machines<h_back11, HIST>>();
 H_ALL(msm::back::NoHistory)
+template void h_use<h_machines<h_mp11, void>>();
 H_ALL(msm::back::AlwaysHistory)
 H_ALL(msm::back::ShallowHistory<mpl::vector<h_resume>>)
 }
